@@ -25,6 +25,13 @@ pub fn exec(op: &str, a: &Value) -> Option<Value> {
     let same = a.get("same").and_then(|x| x.as_bool()).unwrap_or(false);   // the receiver is also the argument
     let (d2, ym2) = if same { ((2020, 1, 15), "2020-01") } else { ((2021, 3, 20), "2021-03") };
     Some(match op {
+        // the option enums' own helper tables
+        "Opt.table.unit" => run(|| Ok(arg_unit(js::s(a, "unit"))), |u| json!({"ns": big(u.as_nanoseconds().unwrap_or(0) as i128), "max": int(u.to_maximum_rounding_increment().unwrap_or(0) as i64),
+            "cal": u.is_calendar_unit(), "date": u.is_date_unit(), "time": u.is_time_unit()})),
+        "Opt.table.mode" => run(|| Ok(arg_mode(js::s(a, "mode"))), |m| { let un = |p: bool| match m.get_unsigned_round_mode(p) {
+                UnsignedRoundingMode::Infinity => "infinity", UnsignedRoundingMode::Zero => "zero", UnsignedRoundingMode::HalfInfinity => "half-infinity",
+                UnsignedRoundingMode::HalfZero => "half-zero", UnsignedRoundingMode::HalfEven => "half-even" };
+            json!({"neg": m.negate().to_string(), "pos": un(true), "negative": un(false)}) }),
         "Opt.PlainDate.until" => run(|| PlainDate::try_new(2020, 1, 15, iso())?.until(&PlainDate::try_new(d2.0, d2.1, d2.2, iso())?, arg_settings(st)?), p_duration),
         "Opt.PlainDate.since" => run(|| PlainDate::try_new(2020, 1, 15, iso())?.since(&PlainDate::try_new(d2.0, d2.1, d2.2, iso())?, arg_settings(st)?), p_duration),
         "Opt.PlainTime.until" => run(|| arg_time(&o["a"])?.until(&arg_time(&o["b"])?, arg_settings(st)?), p_duration),
